@@ -35,9 +35,11 @@ def judge(chk: Check, label: str, payload: dict, r: repo.ChildResult, size: int)
 
 
 def akai_base(chk: Check):
-    cases = c01.generate(chk, 48, chk.seed + 31, label="AKAI image for fault injection", nsect=14, maxparts=1, maxvols=2, maxfiles=2)
+    cases = c01.generate(chk, 96, chk.seed + 31, label="AKAI image for fault injection", nsect=14, maxparts=1, maxvols=2, maxfiles=3)
     cases = [c for c in cases if len(c["parts"][0]["vols"]) == 2] or cases
-    case = cases[0]
+    withprog = [c for c in cases if any(f["ftype"] in (0x70, 0xF0) for v in c["parts"][0]["vols"] for f in v["files"])
+                and any(f["ftype"] in (0x73, 0xF3) for v in c["parts"][0]["vols"] for f in v["files"])]
+    case = (withprog or cases)[0]
     paths = ["", "A:"] + [f"A:/{v['name']}" for v in case["parts"][0]["vols"]] + \
             [f"A:/{v['name']}/{f['name']}" for v in case["parts"][0]["vols"] for f in v["files"]][:3]
     return case, aw.build_image(case, chk.seed), paths
